@@ -38,7 +38,7 @@ func (c21) Describe() engine.Info {
 		Rule: "channel 1/2: duty steps counted over a window of K whole periods of 4x(2048-f) clocks must be exactly K (K chosen so that the window is about 20,000 machine cycles); channel 3: wave positions advanced over a window of K periods of 2x(2048-f) clocks (K even); channel 4: machine cycles between changes of the shift register = d(r)x2^s / 4 for every NR43 value with s<=13, and the output bit sequence at r=0,s=0 has period 32767 (15-bit) / 127 (7-bit) and no shorter period. quick: 64 frequencies per channel incl. 0, 1, 2046, 2047 and 64 NR43 values; thorough: all. While a channel is measured the other channels are triggered at random cycles. Signature = (channel, frequency or NR43 bucket)." +
 			" Class sweep: channel 1 while its sweep unit rewrites the frequency; fresh: channel 4 triggered on a machine as constructed (no power cycle, NR43 never written).",
 		Assumptions:    []string{"waveform positions are read through the verif accessor (duty index, wave position, shift register)", "the first period after a trigger is not judged (the reload delay after a trigger is not part of the statement)"},
-		RequiredProbes: []string{"fresh_machine_noise", "sweep_changed_the_frequency", "retuned_without_trigger", "square_periods", "wave_periods", "noise_periods", "lfsr15_period", "lfsr7_period", "other_channel_triggered_during_measurement"},
+		RequiredProbes: []string{"fresh_machine_noise", "sweep_changed_the_frequency", "retuned_without_trigger", "square_periods", "wave_periods", "noise_periods", "noise_retuned_without_trigger", "note_started_on_a_second_boundary", "lfsr15_period", "lfsr7_period", "other_channel_triggered_during_measurement"},
 		RealComponents: realComponents, StubComponents: stubComponents,
 	}
 }
@@ -70,6 +70,11 @@ func (c21) Generate(r *engine.Rand, index int, tier string) *engine.Scenario {
 		sc.Class = fmt.Sprintf("ch%d", ch+1)
 		sc.SetP("ch", int64(ch+1))
 		sc.SetP("f", int64(freq(index%nf)))
+		if index%8 == 3 {
+			// the note starts a whole number of seconds after the machine was constructed, give or take a
+			// few machine cycles (counters that wrap once a second)
+			sc.SetP("start_at", int64(r.Range(1, 2))*1048576+int64(r.Range(-3, 3)))
+		}
 		if r.Bool() {
 			// the channel is triggered at another frequency first and retuned while playing
 			// (frequency registers rewritten without the trigger bit)
@@ -89,6 +94,20 @@ func (c21) Generate(r *engine.Rand, index int, tier string) *engine.Scenario {
 		sc.SetP("nr43", int64(s<<4|w<<3|rr))
 		if k%16 == 5 {
 			sc.SetP("fresh", 1)
+		} else if k%4 == 2 {
+			// the channel is triggered under another NR43 value first (any value, the shift codes 14 and 15
+			// included) and NR43 is then rewritten without a trigger: after the interval in progress, and
+			// within a second at the latest, the generator is clocked at the rate of the value in force
+			sc.Class = "ch4-retuned"
+			p0 := r.Byte()
+			if r.Bool() {
+				p0 = uint8(14+r.Intn(2))<<4 | r.Byte()&0x0f
+				if r.Chance(2, 3) {
+					p0 &^= 7 // the shortest of those intervals
+				}
+			}
+			sc.SetP("nr43_before", int64(p0))
+			sc.SetP("retune_after", int64(r.Range(1, 5000)))
 		}
 	default:
 		if index%4 >= 2 {
@@ -141,6 +160,13 @@ func (c21) Execute(sc *engine.Scenario) *engine.Result {
 		m.Write(others[o], 0x80|r.Byte()&7)
 		res.Probe("other_channel_triggered_during_measurement")
 		res.Fault("other_channel_trigger")
+	}
+	if at := uint64(sc.P("start_at", 0)); at > m.N+8 {
+		m.RunCycles(at - 8 - m.N) // the register writes below take no emulated time: the trigger lands at `at` - 8 + few
+		for m.N < at {
+			m.RunCycles(1)
+		}
+		res.Probe("note_started_on_a_second_boundary")
 	}
 	switch ch {
 	case 1, 2, 3:
@@ -247,14 +273,33 @@ func (c21) Execute(sc *engine.Scenario) *engine.Result {
 		}
 		periodClocks := d << uint(s)
 		m.Write(0xff21, 0xf0)
-		if !fresh {
-			m.Write(0xff22, nr43)
-		}
-		m.Write(0xff23, 0x80)
 		lf := func() uint16 { return m.APU.VerifWave().LFSR }
+		guard := periodClocks/4 + 8
+		if p0 := sc.P("nr43_before", -1); p0 >= 0 && !fresh {
+			m.Write(0xff22, uint8(p0))
+			m.Write(0xff23, 0x80)
+			m.RunCycles(uint64(sc.P("retune_after", 1)))
+			m.Write(0xff22, nr43)
+			res.Probe("noise_retuned_without_trigger")
+			res.Fault("retune")
+			// let the interval in progress run out: the first change after the rewrite may come after the
+			// old interval; from the second change on the new rate applies
+			last := lf()
+			for n := 0; lf() == last; n++ {
+				if n > 1048576 {
+					res.Fail("C21/ch4/never-clocks-after-retune", m.N, "NR43 rewritten from %02x to %02x without a trigger: the shift register has not been clocked for a second", p0, nr43)
+					return res
+				}
+				m.RunCycles(1)
+			}
+		} else {
+			if !fresh {
+				m.Write(0xff22, nr43)
+			}
+			m.Write(0xff23, 0x80)
+		}
 		// wait for the first change, then measure the gaps between changes
 		last := lf()
-		guard := periodClocks/4 + 8
 		for lf() == last && guard > 0 {
 			m.RunCycles(1)
 			guard--
